@@ -384,4 +384,55 @@ theorem dcLoop_spec (hg : Nat → Nat → Nat → HM → StepRes) (R dcThr A V G
     · rw [if_neg hn]
       exact hinv
 
+/-! ### the first round (gcdext.c:280-331) -/
+
+theorem szInv_pair (x y : Nat) (hy : 1 ≤ y) : SzInv ⟨x, y, max (nlimbs x) (nlimbs y), true⟩ := by
+  refine ⟨lt_of_lt_of_le (lt_pow_nlimbs x) (Nat.pow_le_pow_right B_pos (le_max_left _ _)),
+    lt_of_lt_of_le (lt_pow_nlimbs y) (Nat.pow_le_pow_right B_pos (le_max_right _ _)), ?_, ?_, rfl⟩
+  · show B ^ (max (nlimbs x) (nlimbs y) - 1) ≤ x ∨ B ^ (max (nlimbs x) (nlimbs y) - 1) ≤ y
+    rcases le_total (nlimbs x) (nlimbs y) with h | h
+    · right; rw [max_eq_right h]; exact pow_le_of_nlimbs (by omega)
+    · left; rw [max_eq_left h]
+      rcases Nat.eq_zero_or_pos x with hx | hx
+      · rw [hx, nlimbs_zero] at h
+        have := nlimbs_pos (show 0 < y by omega); omega
+      · exact pow_le_of_nlimbs hx
+  · have := nlimbs_pos (show 0 < y by omega)
+    exact le_trans this (le_max_right _ _)
+
+theorem dcFirst_spec (hg : Nat → Nat → Nat → HM → StepRes) (R A V N : Nat) (hok : HgOk hg R) (h10 : 10 ≤ N)
+    (hR : N - N / 2 < R) (hl : LInv A V N) :
+    match dcFirst hg (N + 1) A V N with
+    | .inr r => ResOk A V (Nat.gcd A V) r ∧ (HgMn hg → r.ok = true)
+    | .inl s => DInv A V (Nat.gcd A V) (HgMn hg) s := by
+  have hV : V < B ^ N := hl.2.2.2.1
+  have hcof : CofOk A V A V 0 1 := ⟨1, 0, cofInv_init A V⟩
+  have hsz0 : SzInv ⟨0, 1, 1, true⟩ := by unfold SzInv; rw [B_eq]; decide
+  unfold dcFirst
+  obtain ⟨g1, g2⟩ := hgRound_spec hg R A V (Nat.gcd A V) A V N 0 1 (N / 2) hok hl hcof rfl (by omega) (by omega) hR
+  simp only at g1 g2 ⊢
+  have hmn : HgMn hg → (hg (N - N / 2) (A / B ^ (N / 2)) (V / B ^ (N / 2)) (matInit (N - N / 2))).ret ≠ 0 →
+      (hg (N - N / 2) (A / B ^ (N / 2)) (V / B ^ (N / 2)) (matInit (N - N / 2))).M.n ≤ (N - N / 2 - 1) / 2 :=
+    fun h => h _ _ _
+  generalize hg (N - N / 2) (A / B ^ (N / 2)) (V / B ^ (N / 2)) (matInit (N - N / 2)) = r at g1 g2 hmn ⊢
+  by_cases hret : r.ret > 0
+  · rw [if_pos hret]
+    have hst := g1 (by omega)
+    generalize matAdjust r.M (N / 2 + r.ret) (A % B ^ (N / 2) + B ^ (N / 2) * r.a)
+      (V % B ^ (N / 2) + B ^ (N / 2) * r.b) (N / 2) = adj at hst ⊢
+    obtain ⟨nn, a', b'⟩ := adj
+    have hc' : CofOk A V a' b' r.M.e10 r.M.e11 := by
+      have := hst.cof
+      simpa using this
+    obtain ⟨_, p11⟩ := det1_pos hst.det
+    exact dinv_mk a' b' nn _ _ _ _ hst.linv hc' hst.gcd (szInv_pair _ _ p11)
+      (fun hp => by have := hmn hp (by omega); simp only [decide_eq_true_eq]; omega)
+  · rw [if_neg hret]
+    obtain ⟨ea, eb⟩ := g2 (by omega)
+    rw [ea, eb]
+    have hsub := dcSubdiv_spec A V (Nat.gcd A V) N (HgMn hg) hV ⟨A, V, N, ⟨0, 1, 1, true⟩⟩ ⟨hl, hcof, rfl, hsz0, fun _ => rfl⟩
+    cases hd : dcSubdiv (N + 1) ⟨A, V, N, ⟨0, 1, 1, true⟩⟩ with
+    | inr r' => rw [hd] at hsub; exact hsub
+    | inl s' => rw [hd] at hsub; exact hsub.1
+
 end Mpir.Gcdext
